@@ -26,6 +26,8 @@ def client_case(draw):
     r = gen.rng(draw)
     fa = sut.fa_ref(c)
     c["z"] = r.normal(0, 1, fa.CF)
+    if gen.choice(draw, [False, False, False, True]):
+        c["z"] = np.zeros(fa.CF)  # a client without residual offset (what enrolment returns when D = 0)
     c["y"] = r.normal(0, 1, fa.rV) if c["jfa"] else None
     c["z_2d"] = (not c["jfa"]) and gen.boolean(draw)  # ISVMachine.enroll returns a (1, CF) array
     if gen.choice(draw, [False, False, False, True]):
@@ -215,6 +217,8 @@ def g_lifecycle(draw):
     r = gen.rng(draw)
     fa = sut.fa_ref(c)
     c["z"] = r.normal(0, 1, fa.CF)
+    if gen.choice(draw, [False, False, False, True]):
+        c["z"] = np.zeros(fa.CF)
     c["yy"] = r.normal(0, 1, fa.rV) if c["jfa"] else None
     c["em"] = gen.integer(draw, 1, 2)
     c["step"] = gen.choice(draw, ["fit", "fit", "ubm", "fit_bag", "inplace_U"])
